@@ -1,7 +1,61 @@
-//! Correspondence harness of property C18 (stub).
+//! Correspondence harness of property C18 (ZKIR: off-circuit evaluation and the compiled
+//! circuit agree on every program).
+//!
+//! Request line:  `run <instr>... | <name>=<value>... | <hash-table entries>...`
+//! Answer line:   `load:.. | trace:.. | off:.. | cmp:.. | pi:.. | mock:.. | bin:..`
+//! (see `text.rs` for the encodings and `run.rs` for what each section observes).
+mod gen;
+mod run;
+mod text;
+
 use mzkh::Ctx;
+use rayon::prelude::*;
+
+use crate::{run::run_case, text::parse_case_body};
+
+fn emit(ctx: &mut Ctx, outs: Vec<run::Outcome>, kind: &str) {
+    for o in outs {
+        ctx.case(kind, o.nontrivial, &o.op_line, &o.answer);
+        for t in &o.tags {
+            ctx.count(t);
+        }
+        for (key, what, detail) in o.fails {
+            ctx.oracle_fail(&key, &what, detail);
+        }
+    }
+}
+
+fn run_batch(ctx: &mut Ctx, kind: &str, cases: Vec<text::Case>, with_mock: bool) {
+    let outs: Vec<run::Outcome> =
+        cases.par_iter().map(|c| run_case("run", c, with_mock)).collect();
+    emit(ctx, outs, kind);
+}
 
 fn main() {
-    let ctx = Ctx::from_args("C18");
+    if let Ok(path) = std::env::var("H_C18_ADHOC") {
+        mzkh::quiet_panics();
+        for line in std::fs::read_to_string(path).unwrap().lines() {
+            let line = line.trim();
+            if line.is_empty() || line.starts_with('#') {
+                continue;
+            }
+            let body = line.strip_prefix("run ").unwrap_or(line);
+            match parse_case_body(body) {
+                None => println!("unparsable: {line}"),
+                Some(c) => {
+                    let o = run_case("run", &c, std::env::var("H_C18_NOMOCK").is_err());
+                    println!("{}\n  => {}", o.op_line, o.answer.replace(" | ", "\n     "));
+                    for (_, what, d) in o.fails {
+                        println!("  ORACLE-FAIL: {what} {}", d["observed"]);
+                    }
+                }
+            }
+        }
+        return;
+    }
+    let mut ctx = Ctx::from_args("C18");
+    let fixed = gen::fixed_cases();
+    run_batch(&mut ctx, "fixed", fixed, true);
+    gen::generated(&mut ctx);
     ctx.finish();
 }
